@@ -114,6 +114,16 @@ def build_ops(sig, rng):
     add("ufunc_arr", "array", lambda: np.multiply(other, sig))
     add("ufunc_neg", "none", lambda: -sig)
     add("asarray", "none", lambda: np.asarray(sig))
+    # np.array() promises its caller a private copy: the caller then edits that copy in place (judged by the history check)
+    akw = [{}, {"dtype": sig.dtype}, {"dtype": sig.dtype, "copy": True}, {"copy": True}, {"dtype": np.dtype(sig.dtype).newbyteorder("=")}]
+    kw_ = akw[int(rng.integers(len(akw)))]
+
+    def array_then_edit():
+        r = np.array(sig, **kw_)
+        r *= 0
+        r += 1
+        return r
+    add("np_array_copy_then_edit", "none", array_then_edit)
     for name in ("compute", "persist", "to_dask_array", "rechunk"):
         add(name, "none", (lambda nm: (lambda: getattr(sig, nm)()))(name))
     add("like", "none", lambda: type(sig).like(sig))
@@ -345,6 +355,79 @@ def wl_failpoints(ctx, idx, rng):
     ctx.sample(desc, limit=2)
 
 
+FFT_NAMES = ["fft", "ifft", "fft2", "ifft2", "fftn", "ifftn", "rfft", "irfft", "rfft2", "irfft2", "rfftn", "irfftn", "hfft", "ihfft"]
+
+
+def wl_helpers(ctx, idx, rng):
+    """Direct calls of the public helpers (pb.fft.*, pb.utils.*) with caller-held arrays and signals: arguments bit-identical after."""
+    name = FFT_NAMES[idx % len(FFT_NAMES)]
+    fn = getattr(pb.fft, name)
+    real_in = name in ("rfft", "rfft2", "rfftn", "ihfft")
+    dtype = gen.pick(rng, [np.float64, np.float32]) if real_in else gen.pick(rng, [np.complex128, np.complex64, np.complex128, np.float64])
+    shape = tuple(int(v) for v in rng.integers(2, 9, size=int(rng.integers(2, 4))))
+    mem = gen.pick(rng, ["C", "F", "strided", "neg", "offset"])
+    x, memkind = gen.layout(rng, gen.rand_data(rng, shape, dtype), mem)
+    holder = gen.pick(rng, ["array", "array", "signal", "dask"])
+    if holder == "signal":
+        sig, _ = gen.make_signal(rng, "Signal", shape[0], data=x, rate=1 * u.kHz)
+        with probes.quiet():
+            if sig.data is not x and not np.shares_memory(sig.data, x):
+                x = sig.data
+        arg = sig
+    elif holder == "dask":
+        arg = da.from_array(x, chunks=-1)
+    else:
+        arg = x
+    kw = {}
+    r = rng.random()
+    two_d = name.endswith("2") or name.endswith("n")
+    if not two_d:
+        kw["axis"] = int(rng.integers(-len(shape), len(shape)))
+        if r < 0.3:
+            kw["n"] = int(shape[kw["axis"]] + rng.integers(-1, 3))
+    elif r < 0.4:
+        kw["axes"] = (0, 1) if rng.random() < 0.5 else (-1, 0)
+    if holder != "dask" and rng.random() < 0.3:
+        kw["norm"] = gen.pick(rng, ["ortho", "forward", "backward"])
+    desc = {"helper": "pb.fft." + name, "shape": list(shape), "dtype": np.dtype(dtype).name, "mem": memkind, "holder": holder, "kw": {k: str(v) for k, v in kw.items()}}
+    ctx.describe_case(desc)
+    ctx.sample(desc, limit=6)
+    before_x = snapshot.snap(x)
+    before_arg = snapshot.snap(arg) if holder == "signal" else None
+    try:
+        res = fn(arg.data if holder == "signal" and rng.random() < 0.5 else arg, **kw)
+        if isinstance(res, da.Array):
+            res = res.compute(scheduler="synchronous")
+        exc = None
+    except Exception as e:
+        res, exc = None, e
+    ctx.count("oracle[helper_args_unchanged]")
+    d = snapshot.describe_diff(before_x, snapshot.snap(x), "array argument")
+    if not d and before_arg is not None:
+        d = snapshot.describe_diff(before_arg, snapshot.snap(arg), "signal argument")
+    if d:
+        ctx.violation("no_mutation", f"pb.fft.{name}({holder}, {kw}) modified its argument: {d}"
+                                     f"{' (the call raised ' + type(exc).__name__ + ')' if exc is not None else ''}",
+                      None, {"op": "pb.fft." + name, "what": "helper_buffer", "holder": holder})
+    if exc is None and isinstance(res, np.ndarray) and np.shares_memory(res, x):
+        ctx.violation("no_mutation", f"pb.fft.{name} returned an array that shares memory with its argument", None,
+                      {"op": "pb.fft." + name, "what": "helper_alias"})
+    ctx.bucket("helper", name, np.dtype(dtype).name, memkind, holder, exc is None)
+    # pb.utils helpers
+    if idx % 3 == 0:
+        xr, mk = gen.layout(rng, gen.rand_data(rng, shape, gen.pick(rng, [np.float64, np.float32])), mem)
+        b = snapshot.snap(xr)
+        ax = int(rng.integers(-len(shape), len(shape)))
+        try:
+            pb.utils.real_to_complex(xr, axis=ax)
+        except Exception:
+            pass
+        ctx.count("oracle[helper_args_unchanged]")
+        d = snapshot.describe_diff(b, snapshot.snap(xr), "array argument")
+        if d:
+            ctx.violation("no_mutation", f"real_to_complex(axis={ax}) modified its argument: {d}", None, {"op": "real_to_complex", "what": "helper_buffer"})
+
+
 def wl_readers(ctx, idx, rng):
     """Reader calls do not modify the reader's attributes or the arguments."""
     import os
@@ -385,7 +468,8 @@ def install_universal(ctx):
 def workloads(ctx):
     q = ctx.tier == "quick"
     return [("R", 1, wl_R), ("ops", 450 if q else 18000, wl_ops), ("inplace", 90 if q else 1800, wl_inplace),
-            ("failpoints", 18 if q else 360, wl_failpoints), ("readers", 12 if q else 120, wl_readers)]
+            ("failpoints", 18 if q else 360, wl_failpoints), ("readers", 12 if q else 120, wl_readers),
+            ("helpers", 1120 if q else 14000, wl_helpers)]
 
 
 def setup(ctx):
@@ -403,4 +487,5 @@ def finalize(ctx):
     ctx.require("oracle[no_mutation]", 3000, "snapshot comparisons with array-backed arguments")
     ctx.require("oracle[root_unchanged]", 100, "history check")
     ctx.require("crash_points", 500, "crash points enumerated")
+    ctx.require("oracle[helper_args_unchanged]", 300, "direct helper calls")
     ctx.note("probe_points", len(op_points()) + 4)
